@@ -53,6 +53,13 @@ def gen(tier, rng):
         pos = rng.randrange(0, len(rbsp) * 8 + 2)
         op = rng.choice([["m", "m", "u8.8"], ["f"], ["s"], ["m", "f"], ["m", "s"]])
         cases.append("bits %s %s" % (nal_src(parts, rng.random() < 0.6), ",".join(pos_ops(pos) + op)))
+        if rng.random() < 0.25:
+            # exactly at the end of what an INCOMPLETE NAL has delivered so far: every check must report "would block"
+            # (and on a complete NAL: the end-of-data answers)
+            endpos = len(rbsp) * 8
+            for op2 in (["f"], ["s"], ["m"]):
+                cases.append("bits %s %s" % (nal_src(parts, False), ",".join(pos_ops(endpos) + op2)))
+                cases.append("bits %s %s" % (nal_src(parts, True), ",".join(pos_ops(endpos) + op2)))
     return cases
 
 
